@@ -612,7 +612,7 @@ static void check_props(Ctx &c, const RCP<const Basic> &r, bool have_val, const 
         bool claim = is_true(ans);
         auto report = [&](const std::string &how) {
             c.violation(std::string("pred:") + PN[p] + "(" + kd + ")=" + (claim ? "true" : "false"),
-                        std::string(PN[p]) + "(" + sstr(r) + ") = " + (claim ? "true" : "false") + " but " + how + "; dense value "
+                        std::string(PN[p]) + "(" + key(*r) + ") = " + (claim ? "true" : "false") + " but " + how + "; dense value "
                             + dmstr(val) + "; expression obtained by " + origin);
         };
         if (shape_false) {
@@ -682,7 +682,7 @@ static void check_props(Ctx &c, const RCP<const Basic> &r, bool have_val, const 
             if (have_val) {
                 c.count(K_SIZE_DEFINITE);
                 if (rr != val.r || cc != val.c)
-                    c.violation("size(" + kd + ")", "size(" + sstr(r) + ") = (" + std::to_string(rr) + "," + std::to_string(cc)
+                    c.violation("size(" + kd + ")", "size(" + key(*r) + ") = (" + std::to_string(rr) + "," + std::to_string(cc)
                                                         + ") but the dense value is " + std::to_string(val.r) + "x" + std::to_string(val.c)
                                                         + "; expression obtained by " + origin);
             }
@@ -702,7 +702,7 @@ static void check_props(Ctx &c, const RCP<const Basic> &r, bool have_val, const 
             if (scalar(*t, got, why)) {
                 c.count(K_TRACE_JUDGED);
                 if (!(got == want))
-                    c.violation("trace(" + kd + ")", "trace(" + sstr(r) + ") = " + sstr(t) + " = " + pstr(got) + " but the dense value "
+                    c.violation("trace(" + kd + ")", "trace(" + key(*r) + ") = " + sstr(t) + " = " + pstr(got) + " but the dense value "
                                                          + dmstr(val) + " has trace " + pstr(want) + "; expression obtained by " + origin);
             }
         } else if (have_val && val.r != val.c) {
@@ -715,7 +715,7 @@ static void check_props(Ctx &c, const RCP<const Basic> &r, bool have_val, const 
         c.count(K_TRACE_REFUSED);
         if (have_val && val.r == val.c)
             c.violation("trace-DomainError(" + kd + ")",
-                        "trace(" + sstr(r) + ") threw DomainError although the value is square; obtained by " + origin);
+                        "trace(" + key(*r) + ") threw DomainError although the value is square; obtained by " + origin);
     } catch (SymEngineException &x) {
         c.count(K_TRACE_REFUSED);
     }
@@ -825,19 +825,19 @@ static void check_transition(Ctx &c, int op, const std::vector<int> &ix)
         if (have)
             check_props(c, r, true, got, recipe);
         else if (why.rfind("ill-shaped", 0) == 0 && operands_ok)
-            c.violation(std::string("ill-shaped-result:") + OPN[op] + "(" + ks + ")", recipe + " returned " + sstr(r) + " whose factors do not fit: " + why);
+            c.violation(std::string("ill-shaped-result:") + OPN[op] + "(" + ks + ")", recipe + " returned " + key(*r) + " whose factors do not fit: " + why);
         return;
     }
     c.count(K_VALUE_JUDGED);
     if (!(got == want)) {
         c.violation(std::string(got.r != want.r || got.c != want.c ? "shape:" : "value:") + OPN[op] + "(" + ks + ")",
-                    recipe + " returned " + sstr(r) + " [" + key(*r) + "] with dense value " + dmstr(got) + " but the operation on the operand values gives "
+                    recipe + " returned " + key(*r) + " with dense value " + dmstr(got) + " but the operation on the operand values gives "
                         + dmstr(want));
         return;
     }
     check_props(c, r, true, got, recipe);
     if (c.index % 3001 == 0)
-        c.sample("{\"recipe\":" + jstr(recipe) + ",\"result\":" + jstr(sstr(r)) + ",\"value\":" + jstr(dmstr(got)) + "}");
+        c.sample("{\"recipe\":" + jstr(recipe) + ",\"result\":" + jstr(key(*r)) + ",\"value\":" + jstr(dmstr(got)) + "}");
 }
 
 int main(int argc, char **argv)
